@@ -66,6 +66,15 @@ def gen(ctx):
     for t in ("$.a", "$..*", "$[?@.a == 1]", "$.a | $.b"):
         for d in ('{"a": [1', "[1, 2", '{"a": 1}}', b"\xff\xfe".decode("latin-1")):
             cases.append({"text": t, "doc": d, "ctx": {}, "raw": True})
+    # documents in which one container object is referenced from several places (parsed YAML anchors, records shared between
+    # fields): each occurrence is a node of its own, in the synchronous and in the asynchronous evaluation alike
+    shared = {"city": "x", "zip": [1, 2]}
+    lst = [1, {"k": 2}]
+    dag1 = {"billing": shared, "shipping": shared, "history": [{"to": shared}, shared]}
+    dag2 = [lst, lst, {"a": lst, "b": [lst]}]
+    for t in ("$..city", "$..*", "$..zip[0]", "$..[?@.city]", "$..[0]", "$..k", "$.*..k", "$..[?@.k == 2]", "$..a..k", "$..[?count(@..*) > 1]"):
+        for d in (dag1, dag2):
+            cases.append({"text": t, "doc": d, "ctx": {}, "raw": True})
     deep = cur = []
     for _ in range(3000):
         nxt = []
